@@ -17,6 +17,13 @@ CLAIMED = {
             "symbolic execution of the real update/reset of 14 detectors with z3: one inductive step from an arbitrary "
             "state (DDM, EDDM, STEPD, PageHinkley; unbounded parameters) and bounded histories with free numeric decisions "
             "(CUSUM, ADWIN, ADWINAccuracy, LFR, kdq-tree x2, HDDDM, CDBD, NNDVI, PCACD)"),
+    "C03": ("DESIGN.md 7/C03",
+            "cut decisions are free booleans in the structural runs (superset of real behaviour), the real _check_epsilon is "
+            "tied to the documented formula by a separate lemma with uninterpreted log/sqrt; exact reals; ADWINAccuracy runs "
+            "use the real doubles",
+            "symbolic execution of the real ADWIN with z3: bounded histories with free cut answers proving mean/variance "
+            "identities and the scan protocol against a sizes-only exponential-histogram model; epsilon-cut kernel lemma; "
+            "relational ADWINAccuracy == ADWIN on indicators over all outcome sequences"),
     "C04": ("DESIGN.md 7/C04",
             "exact real arithmetic instead of IEEE doubles; CUSUM pre-state satisfies the buffer/list length invariant; "
             "zero deviation inside burn-in assumed away; specification in specs/sequential_tests.py",
